@@ -141,6 +141,33 @@ def identifiers(tree) -> set[str]:
     return out
 
 
+def bound_identifiers(tree) -> set[str]:
+    """spellings that the program itself binds (definitions, assignment / loop / with targets, parameters, attribute
+    stores, class fields, import aliases of repository modules) - as opposed to names of other libraries it only uses"""
+    out = set()
+    for n in ast.walk(tree):
+        if isinstance(n, (ast.FunctionDef, ast.AsyncFunctionDef, ast.ClassDef)):
+            out.add(n.name)
+        elif isinstance(n, ast.arg):
+            out.add(n.arg)
+        elif isinstance(n, ast.Name) and isinstance(n.ctx, (ast.Store, ast.Del)):
+            out.add(n.id)
+        elif isinstance(n, ast.Attribute) and isinstance(n.ctx, (ast.Store, ast.Del)):
+            out.add(n.attr)
+        elif isinstance(n, ast.ImportFrom):
+            own = bool(n.level) or (n.module or '').split('.')[0] == 'AEIC'
+            for a in n.names:
+                if a.asname:
+                    out.add(a.asname)
+                elif own:
+                    out.add(a.name)
+        elif isinstance(n, (ast.MatchAs, ast.MatchStar)) and getattr(n, 'name', None):
+            out.add(n.name)
+        elif isinstance(n, ast.ExceptHandler) and n.name:
+            out.add(n.name)
+    return out
+
+
 def build_reference_part(trees: dict[str, ast.Module]) -> dict:
     """what build_reference stores for this module: statement texts per file and the identifier set"""
     ids = set()
@@ -162,7 +189,11 @@ def build_reference_part(trees: dict[str, ast.Module]) -> dict:
         for q, fn in _functions(tree):
             if '<locals>' not in q:
                 srcs.setdefault(rel, {})[q] = ast.unparse(fn)
-    return {'__idents__': sorted(ids), '__stmts__': stm, '__params__': params, '__bodyhash__': bodies, '__src__': srcs}
+    bound = set()
+    for tree in trees.values():
+        bound |= bound_identifiers(tree)
+    return {'__idents__': sorted(ids), '__bound__': sorted(bound), '__stmts__': stm, '__params__': params,
+            '__bodyhash__': bodies, '__src__': srcs}
 
 
 def body_hash(fn) -> str:
@@ -193,9 +224,15 @@ def _occurrences(stmts_by_file: dict[str, list[str]], spellings: set[str], mask:
     return occ
 
 
-def match_renames(ref_ids: set[str], ref_stmts, cur_ids: set[str], cur_stmts) -> dict[str, str]:
+def match_renames(ref_ids: set[str], ref_stmts, cur_ids: set[str], cur_stmts, ref_bound=None, cur_bound=None) -> dict[str, str]:
     vanished = ref_ids - cur_ids
     new = cur_ids - ref_ids
+    # only names the program binds itself can have been renamed by a maintenance commit; a spelling that is merely
+    # used (a function of another library, an attribute of an imported module) is a different thing under another name
+    if ref_bound is not None:
+        vanished &= ref_bound
+    if cur_bound is not None:
+        new &= cur_bound
     if not vanished or not new:
         return {}
     mask = vanished | new
@@ -281,13 +318,19 @@ class _RenameAll(ast.NodeTransformer):
         self.generic_visit(n)
         return n
 
-    def visit_alias(self, n):
-        if n.name in self.mp and n.asname is None:
-            n.name = self._r(n.name)
-        elif n.name in self.mp:
-            n.name = self._r(n.name)
-        if n.asname:
-            n.asname = self._r(n.asname)
+    def visit_ImportFrom(self, n):
+        own = bool(n.level) or (n.module or '').split('.')[0] == 'AEIC'
+        for a in n.names:
+            if own and a.name in self.mp:
+                a.name = self._r(a.name)
+            if a.asname:
+                a.asname = self._r(a.asname)
+        return n
+
+    def visit_Import(self, n):
+        for a in n.names:
+            if a.asname:
+                a.asname = self._r(a.asname)
         return n
 
     def visit_Global(self, n):
@@ -723,11 +766,20 @@ def apply(files: list[tuple[str, str, ast.Module, str]], R: dict) -> dict:
         cur_ids |= identifiers(t)
     cur_stmts = {rel: (R['__stmts__'][rel] if rel not in changed and rel in R['__stmts__'] else statement_texts(t))
                  for rel, t in trees.items()}
-    mp = match_renames(ref_ids, R['__stmts__'], cur_ids, cur_stmts)
+    cur_bound = set()
+    for t in trees.values():
+        cur_bound |= bound_identifiers(t)
+    mp = match_renames(ref_ids, R['__stmts__'], cur_ids, cur_stmts,
+                       set(R['__bound__']) if '__bound__' in R else None, cur_bound)
     if mp:
         for t in trees.values():
             _RenameAll(mp).visit(t)
         info['renamed'] = mp
+    # names each file's definitions are referred to by from *other* files (pass H must not drop those definitions)
+    from . import prenorm
+    refs_by_file = {rel: identifiers(t) for rel, t in trees.items()}
+    prenorm.EXTERNAL_REFS = {rel: set().union(*[v for r, v in refs_by_file.items() if r != rel]) if len(refs_by_file) > 1 else set()
+                             for rel in changed}
     # K
     info['constants_folded'] = fold_new_constants(trees, ref_ids, modnames)
     # M
